@@ -16,6 +16,8 @@ import Clem.Props.C01.ComposeRefl
 import Clem.Props.C01.ComposeSnap
 import Clem.Props.C01.ComposeMemory
 import Clem.Props.C01.ComposeAgents
+import Clem.Props.C01.ComposeLog
+import Clem.Props.C01.ComposeCache
 
 set_option linter.unusedSectionVars false
 
@@ -515,13 +517,51 @@ def histAB (orchOn : Bool) : Hist Int := runTurnsMA worldAB (cfgAB orchOn) s0 [t
 end Example
 
 set_option maxRecDepth 100000 in
-/-- with the orchestrator cache off each agent retrieves its own episode; with it ON (key = version + text) agent B
-is served agent A's hit — C05's recorded finding `turn:agent`, the reason that cache stays off in multi-agent
-histories -/
-theorem C01_compose_agents_needs_orch_cache_off :
+/-- two agents, the same text, the same version (T4 off): since the fix `C05_turn_key_context` the orchestrator's
+turn-level cache key carries the agent — agent B's lookup MISSES the entry agent A stored and retrieves B's own episode,
+cache on or off (on the tree before the fix B was served A's hit: C05's finding `turn:agent`); the general statement is
+`C01_compose_agents_scope_cached` -/
+theorem C01_compose_agents_cache_isolated_example :
     (Example.histAB false).outs.map (fun o => o.t2.retrieved.map (·.id)) = [[[101, 49]], [[101, 50]]] ∧
-    (Example.histAB true).outs.map (fun o => o.t2.retrieved.map (·.id)) = [[[101, 49]], [[101, 49]]] ∧
-    (Example.histAB true).outs.map (·.orchHit) = [false, true] := by
+    (Example.histAB true).outs.map (fun o => o.t2.retrieved.map (·.id)) = [[[101, 49]], [[101, 50]]] ∧
+    (Example.histAB true).outs.map (·.orchHit) = [false, false] ∧
+    (Example.histAB true).state.orch.length = 2 := by
+  decide
+
+/-! ## the log stream of the example turn -/
+
+namespace Example
+
+def envL : LogEnv := { now := some [110], nowIsoApply := some [105] }
+def clk (x : Int) : Clock Int := ⟨x, x, x, x, x, x, x, x, x, x, x, x, x⟩
+def isZ (x : Int) : Bool := decide (x = 0)
+
+def msOf (l : List (Str × Clem.Py.JV.J Int)) : List (Option Bool) :=
+  l.map (fun p => (fieldOf [109, 115] p.2).map (fun v => Clem.Py.JV.jbeq (fun a b => decide (a = b)) v (.num 0)))
+
+def hasNow (l : List (Str × Clem.Py.JV.J Int)) : List Bool := l.map (fun p => (fieldOf [110, 111, 119] p.2).isSome)
+
+end Example
+
+set_option maxRecDepth 100000 in
+/-- the example's first turn writes, in this order, t1, t2, gel (observe), t3, t3_plan, t3_dialogue, t4, gel (decay),
+apply, t3_reflection, health, turn; before normalisation every stage line carries the measured `ms` (5) and `now`;
+after it the identity lines have `ms = 0` and no `now`, the other lines are untouched -/
+theorem C01_compose_log_nonvacuous :
+    (emitted Example.isZ Example.world Example.cfg Example.envL Example.s0 (Example.turn 1).1 (Example.turn 1).2
+      (Example.clk 5)).map (·.1) =
+      [fT1, fT2, fGel, fT3, fT3Plan, fT3Dlg, fT4, fGel, fApply, fRefl, fHealth, fTurn] ∧
+    Example.msOf (rawRecords Example.world Example.cfg Example.envL Example.s0 (Example.turn 1).1 (Example.turn 1).2
+      (Example.clk 5)) =
+      [some false, some false, some false, none, none, some false, some false, some false, some true, some false,
+       none, none] ∧
+    Example.msOf (emitted Example.isZ Example.world Example.cfg Example.envL Example.s0 (Example.turn 1).1
+      (Example.turn 1).2 (Example.clk 5)) =
+      [some true, some true, some false, none, none, some false, some true, some false, some true, some true,
+       none, none] ∧
+    Example.hasNow (emitted Example.isZ Example.world Example.cfg Example.envL Example.s0 (Example.turn 1).1
+      (Example.turn 1).2 (Example.clk 5)) =
+      [false, false, true, true, true, true, false, true, false, false, false, false] := by
   decide
 
 end Clem.Compose
